@@ -225,9 +225,9 @@ static void track_connect_next(struct track *track)
     ut_assert(track->fd_reg_id == -1);
     track->fd_reg_id = xpoll_fd_reg_add(track->xpoll, fd, EPOLLOUT);
 
-    /* XXX: make sure scope is correctly set (i.e., not -1 for IPv6) */
     struct sockaddr_storage servaddr;
-    tp_ip_to_sockaddr(remote_ip, track->remote_port, track->scope,
+    tp_ip_to_sockaddr(remote_ip, track->remote_port,
+		      track_get_current_scope(track),
 		      (struct sockaddr *)&servaddr);
 
     LOG_CONN_IP(track->log_ref, remote_ip, track->remote_port);
